@@ -344,6 +344,7 @@ fn main() {
     }
     let n = cx.id;
     file.flush().unwrap();
+    vharness::evalx::exit_on_build_failures("c04");
     eprintln!("c04: {n} simplifications over {} programs", progs.len());
     let _ = ops_json(&[]);
     let _ = with_n!(3, nop());
